@@ -270,10 +270,21 @@ fn compare<T: Sc>(
     nrows: usize,
     world: &World<T>,
 ) {
-    if a.build_snap != b.build_snap {
-        rep.violate(sc, class, &format!("{what}/build"), "state after build() differs".into());
-    }
     let mut jac_bitwise_so_far = true;
+    if a.build_snap != b.build_snap {
+        // between flavours a build-time state that agrees up to rounding is accepted (and the
+        // comparison continues in the toleranced regime); between schedules it must be bitwise
+        let verdict = match (&a.build_snap, &b.build_snap, strict) {
+            (Some(x), Some(y), false) => state_close::<T>(world, x, y),
+            _ => Some(false),
+        };
+        if verdict == Some(false) {
+            rep.violate(sc, class, &format!("{what}/build"), "state after build() differs".into());
+        } else {
+            rep.probe("state_equal_up_to_rounding_between_flavours");
+            jac_bitwise_so_far = false;
+        }
+    }
     for (sa, sb) in a.steps.iter().zip(b.steps.iter()) {
         let op = &sc.ops[sa.op];
         let name = op_name(op);
@@ -362,6 +373,27 @@ fn compare<T: Sc>(
                                 }
                             }
                         }
+                        (TapKind::Residuals(Some(x)), TapKind::Residuals(Some(y))) if !strict && x != y => {
+                            // one flavour refactored at rounding level: accept residuals that agree
+                            // up to rounding and stop the step-by-step comparison (the optimizers
+                            // may take different paths from here)
+                            let verdict = match &walk_params {
+                                Some(p) => {
+                                    let a = Snap { params: p.clone(), resid: Some(x.clone()), coeff: Some(vec![]), coeff_shape: (0, 0) };
+                                    let b = Snap { params: p.clone(), resid: Some(y.clone()), coeff: Some(vec![]), coeff_shape: (0, 0) };
+                                    state_close::<T>(world, &a, &b)
+                                }
+                                None => None,
+                            };
+                            if verdict == Some(false) {
+                                rep.violate(sc, class, &format!("{what}/{name}/residuals"), format!("op {}: inside the fit the residuals of the two flavours differ beyond rounding", sa.op));
+                            } else {
+                                rep.probe("residuals_equal_up_to_rounding_between_flavours");
+                            }
+                            jac_bitwise_so_far = false;
+                            diverged = true;
+                            break;
+                        }
                         (x, y) => {
                             if x != y {
                                 if jac_bitwise_so_far {
@@ -407,7 +439,36 @@ fn compare<T: Sc>(
             }
             _ => {}
         }
-        // residuals / coefficients / params: the update path is the same computation
+        // residuals / coefficients / params: on the pinned tree the update path is the same
+        // computation in both flavours (bitwise). A refactoring of ONE flavour may change its
+        // last bits: between flavours (not between schedules) a state that differs is accepted
+        // when it is equal within a conditioning-aware rounding bound, and from then on the
+        // comparison continues in the toleranced regime
+        if !strict && jac_bitwise_so_far && sa.snap != sb.snap && !matches!(op, Op::Fit | Op::FitWithStatistics) {
+            if let (Some(x), Some(y)) = (&sa.snap, &sb.snap) {
+                match state_close::<T>(world, x, y) {
+                    Some(true) => {
+                        rep.probe("state_equal_up_to_rounding_between_flavours");
+                        jac_bitwise_so_far = false;
+                    }
+                    None => {
+                        rep.probe("state_comparison_gated_between_flavours");
+                        jac_bitwise_so_far = false;
+                    }
+                    Some(false) => {}
+                }
+            }
+        }
+        if !strict && !jac_bitwise_so_far && sa.snap != sb.snap && !matches!(op, Op::Fit | Op::FitWithStatistics) {
+            // toleranced regime: the states must still agree up to rounding
+            if let (Some(x), Some(y)) = (&sa.snap, &sb.snap) {
+                if state_close::<T>(world, x, y) == Some(false) {
+                    rep.violate(sc, class, &format!("{what}/{name}/state"), format!("op {}: residuals/coefficients/parameters of the two flavours differ beyond rounding after {name}", sa.op));
+                }
+            } else if sa.snap.is_some() != sb.snap.is_some() {
+                rep.violate(sc, class, &format!("{what}/{name}/presence"), format!("op {}: state present in one flavour only after {name}", sa.op));
+            }
+        }
         if jac_bitwise_so_far || !matches!(op, Op::Fit | Op::FitWithStatistics) {
             if sa.snap != sb.snap && jac_bitwise_so_far {
                 let w = match (&sa.snap, &sb.snap) {
